@@ -13,24 +13,31 @@ def main():
     reg = json.load(open(os.path.join(vlib.VERIF, "tools", "families.json")))
     only = sys.argv[1:]
     bad = 0
-    for fam, props in reg.items():
-        if only and fam not in only:
-            continue
+
+    def build(item):
+        fam, props = item
         t0 = time.time()
         ctx = vlib.Ctx("_setup_" + fam, fam)
         cd = ctx.coqdir
         targets = sorted(f[:-2] for f in os.listdir(cd) if f.startswith("Properties_") and f.endswith(".v"))
-        ok = ctx.coq_prove(targets)
+        ok = ctx.coq_prove(targets, timeout=3000)
         try:
             if os.path.exists(os.path.join(ctx.famdir, "oracle", "main.ml")):
                 ctx.oracle_build()
         except vlib.BuildError as e:
             ok = False
             ctx.broken.append(("oracle build", str(e)))
-        print("[setup] %-10s %s  %d/%d obligations  %.1fs" % (fam, "ok" if ok else "FAILED", ctx.discharged, ctx.obligations, time.time() - t0))
-        for w, d in ctx.broken:
-            print("   broken: %s :: %s" % (w, d[:1500]))
-            bad += 1
+        return fam, ok, ctx, time.time() - t0
+
+    # the slowest families first; four at a time (each make runs its own files in parallel)
+    order = sorted(((f, p) for f, p in reg.items() if not only or f in only), key=lambda x: {"pipe": 0, "simsync": 1, "hal": 2}.get(x[0], 9))
+    from concurrent.futures import ThreadPoolExecutor
+    with ThreadPoolExecutor(max_workers=4) as ex:
+        for fam, ok, ctx, dt in ex.map(build, order):
+            print("[setup] %-10s %s  %d/%d obligations  %.1fs" % (fam, "ok" if ok else "FAILED", ctx.discharged, ctx.obligations, dt), flush=True)
+            for w, d in ctx.broken:
+                print("   broken: %s :: %s" % (w, d[:1500]))
+                bad += 1
     sys.exit(1 if bad else 0)
 
 
